@@ -1,6 +1,7 @@
 package checks
 
 import (
+	"errors"
 	"bufio"
 	"bytes"
 	"crypto/tls"
@@ -32,6 +33,8 @@ type C10ServerCase struct {
 	// Paced: ReadTimeout 60 s, no WriteTimeout, and the client lets 25 virtual seconds pass before every send: never
 	// idle for a whole ReadTimeout, but the session inside TLS lasts many times that long
 	Paced bool `json:"paced,omitempty"`
+	// LogoutErr: the backend's Logout returns an error (the upgrade must go on all the same: the old session is gone)
+	LogoutErr bool `json:"logout_err,omitempty"`
 }
 
 // c10Probes: what is tried inside the TLS session (names from Alphabet).
@@ -51,6 +54,9 @@ func evalC10Server(c C10ServerCase) (*h.Finding, string) {
 	if c.SlowAbort {
 		opts.Backend = func(be *h.Backend) { be.SlowAbort = 20 * time.Second }
 		opts.Patience = 30 * time.Second
+	}
+	if c.LogoutErr {
+		opts.Backend = func(be *h.Backend) { be.LogoutErr = errors.New("logout failed") }
 	}
 	if c.Paced {
 		opts.Cfg = func(cfg *h.Config) { cfg.ReadTO = 60 * time.Second }
@@ -476,7 +482,7 @@ func C10(tier string) int {
 	injects := []string{"", "MAIL FROM:<okinject@x.example>\r\n", "RCPT TO:<okinject@x.example>\r\n", "EHLO evil.example\r\nMAIL FROM:<okinject@x.example>\r\nRCPT TO:<okinject@y.example>\r\n", "RSET\r\nNOOP\r\n", "BDAT 5 LAST\r\ninject",
 		// no line break at all, just under the line limit: not even the line COUNTER may cross into the TLS session
 		strings.Repeat("i", 1985)}
-	run.Rule = fmt.Sprintf("SERVER: phase 1 - the C03 breadth-first search (alphabet without STARTTLS) collects one shortest history for EVERY reachable pre-STARTTLS state (greeted, authenticated, mid-transaction, mid-BDAT, after errors ...) of %d configuration(s); phase 2 - for every such state x injected plaintext %q x {same segment as STARTTLS, own segment before the ClientHello}: STARTTLS, real TLS handshake, then %d probe commands inside TLS (MAIL/RCPT/DATA/BDAT/AUTH before the new EHLO, EHLO, STARTTLS again, AUTH twice, a full transaction), every step compared with the reference model (old session: Logout and no Reset; nothing remembered; NewSession of the new EHLO sees TLS and the new name; AUTH state gone; envelope gone) plus: no injected command is ever executed once TLS is up; every state once more with a backend that needs 20 virtual seconds to abandon an open delivery (the old session is logged out only after its Data call has returned), and once more with ReadTimeout 60 s and a client that lets 25 virtual seconds pass before every send (no deadline armed for the handshake may outlive it). CLIENT: entry points {NewClientStartTLS (in-memory), DialStartTLS, SendMail (loopback)} x scripted server behaviours {good, no STARTTLS keyword, EHLO refused -> HELO fallback, 454, 220 then garbage, 220 with an untrusted certificate, 220 with injected plaintext replies behind it then a good handshake, good handshake after which EHLO is refused and only HELO accepted, good handshake after which EHLO is answered by a bare 250 line, 220 followed in the same write by 1..1997 octets without a line end (not even their NUMBER may matter inside TLS: the upgrade works, or the client gives up before it says anything inside TLS), good handshake after which EHLO is answered 421/451/501/503/504/550/554 (no capability heard in plaintext may be reported or used)} x {with, without SASL client}: raw octets before the handshake contain only EHLO/HELO/STARTTLS/QUIT, the first line inside TLS is EHLO and ITS capability list is used, every bad case returns an error. states = pre-STARTTLS states; transitions = conversations.", len(cfgs), injects, len(c10Probes))
+	run.Rule = fmt.Sprintf("SERVER: phase 1 - the C03 breadth-first search (alphabet without STARTTLS) collects one shortest history for EVERY reachable pre-STARTTLS state (greeted, authenticated, mid-transaction, mid-BDAT, after errors ...) of %d configuration(s); phase 2 - for every such state x injected plaintext %q x {same segment as STARTTLS, own segment before the ClientHello}: STARTTLS, real TLS handshake, then %d probe commands inside TLS (MAIL/RCPT/DATA/BDAT/AUTH before the new EHLO, EHLO, STARTTLS again, AUTH twice, a full transaction), every step compared with the reference model (old session: Logout and no Reset; nothing remembered; NewSession of the new EHLO sees TLS and the new name; AUTH state gone; envelope gone) plus: no injected command is ever executed once TLS is up; every state once more with a backend that needs 20 virtual seconds to abandon an open delivery (the old session is logged out only after its Data call has returned), once more with a backend whose Logout returns an error, five longer pre-histories (messages transferred, authenticated, transfer abandoned - what the state key cannot tell from a fresh connection), and once more with ReadTimeout 60 s and a client that lets 25 virtual seconds pass before every send (no deadline armed for the handshake may outlive it). CLIENT: entry points {NewClientStartTLS (in-memory), DialStartTLS, SendMail (loopback)} x scripted server behaviours {good, no STARTTLS keyword, EHLO refused -> HELO fallback, 454, 220 then garbage, 220 with an untrusted certificate, 220 with injected plaintext replies behind it then a good handshake, good handshake after which EHLO is refused and only HELO accepted, good handshake after which EHLO is answered by a bare 250 line, 220 followed in the same write by 1..1997 octets without a line end (not even their NUMBER may matter inside TLS: the upgrade works, or the client gives up before it says anything inside TLS), good handshake after which EHLO is answered 421/451/501/503/504/550/554 (no capability heard in plaintext may be reported or used)} x {with, without SASL client}: raw octets before the handshake contain only EHLO/HELO/STARTTLS/QUIT, the first line inside TLS is EHLO and ITS capability list is used, every bad case returns an error. states = pre-STARTTLS states; transitions = conversations.", len(cfgs), injects, len(c10Probes))
 	run.Assumptions = []string{"plaintext put on the wire between the 220 reply and the ClientHello makes the handshake fail (no TLS session exists); what the server does with a failed handshake is not judged", "loopback TCP is used for DialStartTLS/SendMail (they insist on dialling), outside synctest bubbles"}
 	t0 := time.Now()
 	for _, pc := range cfgs {
@@ -496,6 +502,37 @@ func C10(tier string) int {
 		run.State(int64(st.States))
 		fmt.Printf("  phase 1 done after %.1fs\n", time.Since(t0).Seconds())
 		var cases []C10ServerCase
+		// Longer pre-histories as well: the state key cannot distinguish a connection that has ALREADY transferred
+		// messages, authenticated or abandoned a transfer from a fresh one (that is what the key is for), so whatever
+		// a change keeps in a field the key does not contain would stay behind the shortest history.
+		idx := map[string]int{}
+		for i, a := range alpha {
+			idx[a.Name] = i
+		}
+		hello := "EHLO c1"
+		if pc.LMTP {
+			hello = "LHLO c1"
+		}
+		for n, names := range [][]string{
+			{hello, "MAIL ok", "RCPT a", "DATA accept-d1"},
+			{hello, "MAIL ok", "RCPT a", "RCPT b", "BDAT accept-c1", "BDAT accept-c2 LAST"},
+			{hello, "MAIL ok", "RCPT a", "DATA accept-d1", "MAIL ok", "RCPT b", "BDAT accept-c1", "RSET"},
+			{hello, "AUTH ok", "MAIL ok", "RCPT a", "DATA reject-d2", "MAIL ok", "RCPT a"},
+			{hello, "MAIL ok", "RCPT a", "BDAT accept-c1", "BDAT accept-c2 LAST", "MAIL ok", "RCPT b", "BDAT accept-c1"},
+		} {
+			var hist []int
+			ok := true
+			for _, nm := range names {
+				i, found := idx[nm]
+				ok = ok && found
+				hist = append(hist, i)
+			}
+			if !ok {
+				run.NotExhaustive(fmt.Sprintf("C10: a name of long pre-history %d is not in the alphabet", n))
+				continue
+			}
+			states[fmt.Sprintf("long pre-history %d", n)] = hist
+		}
 		for _, hist := range states {
 			for _, inj := range injects {
 				for _, same := range []bool{true, false} {
@@ -509,6 +546,8 @@ func C10(tier string) int {
 			cases = append(cases, C10ServerCase{PC: pc, Hist: hist, Names: histNames(alpha, hist), SameSeg: true, SlowAbort: true})
 			// and with a read timeout and a steady, slow client
 			cases = append(cases, C10ServerCase{PC: pc, Hist: hist, Names: histNames(alpha, hist), SameSeg: true, Paced: true})
+			// and with a backend whose Logout reports an error
+			cases = append(cases, C10ServerCase{PC: pc, Hist: hist, Names: histNames(alpha, hist), SameSeg: true, LogoutErr: true})
 		}
 		h.ParallelFor(len(cases), func(i int) {
 			if run.Expired() {
